@@ -308,18 +308,36 @@ func c07evlExec(w *c07evlWorkerState, op, kind string, b, aux []byte) (res strin
 			p := &eventlog.TaggedDigest{}
 			switch kind {
 			case "append":
+				// the law is about what append itself allocates: the minimum over repetitions, so that an
+				// unrelated runtime allocation landing inside one measurement (timers, GC bookkeeping on a
+				// loaded machine) is not taken for append's
 				var s []*eventlog.TaggedDigest
-				meter(func() {
-					for i := 0; i < n; i++ {
-						s = append(s, p)
+				best := ^uint64(0)
+				for rep := 0; rep < 5; rep++ {
+					s = nil
+					meter(func() {
+						for i := 0; i < n; i++ {
+							s = append(s, p)
+						}
+					})
+					if alloc < best {
+						best = alloc
 					}
-				})
+				}
+				alloc = best
 				c07evlSink = s
 				text, withRest = func() string { return fmt.Sprintf("bound=%d", 64*n) }, false
 			default:
-				src := bytes.NewBuffer(make([]byte, n))
 				var got []byte
-				meter(func() { got, _ = io.ReadAll(src) })
+				best := ^uint64(0)
+				for rep := 0; rep < 5; rep++ {
+					src := bytes.NewBuffer(make([]byte, n))
+					meter(func() { got, _ = io.ReadAll(src) })
+					if alloc < best {
+						best = alloc
+					}
+				}
+				alloc = best
 				c07evlSink = got
 				text, withRest = func() string { return fmt.Sprintf("bound=%d", 8*n+1024) }, false
 			}
